@@ -825,6 +825,11 @@ func (vfs *MemFS) Rename(oldpath, newpath string) error {
 
 		switch nc := nChild.(type) {
 		case *fileNode:
+			if node(nc) == oChild {
+				// old and new are hard links to the same file : nothing to do.
+				return nil
+			}
+
 			nc.delete()
 		default:
 			err := error(avfs.ErrFileExists)
